@@ -20,7 +20,7 @@ files, hard links, metadata). Theorems:
   `specOK t ·` (`≃`), OR the hash function has a collision (exhibited);
 * `restore_cfg_indep`: the restored tree does not depend on the chunking / hash (the parts of the
   configuration that reach this model), up to collisions;
-* component lemmas in `Restic.Proofs.C01`: `restore_inorder` (offsets), `saved_chunk_loads`
+* component lemmas in `Restic.Proofs.C01`: `restore_inorder`, `restore_anyorder` (offsets, any write order), `saved_chunk_loads`
   (store), `hardlinkIndex_eq` (index maps every key to the first linked node), `observe_specOK`;
 * `chunks_split_law`: restic's chunk loop (C17 `chunks_concat`) is a lossless chunking;
 * T1: the two passes of `RestoreTo` enclose `restoreFiles`; `chmod` comes after `lchown` (so that
@@ -29,8 +29,8 @@ files, hard links, metadata). Theorems:
 PARTIAL. Below the model and covered only by the correspondence run: JSON tree encoding (C41),
 tree traversal (C42), packs/index (C02/C44), AES/zstd, and the system calls (`mknod`, `lchown`,
 `utimensat`, xattr calls). The file restorer writes blobs pack by pack, i.e. in an order that is not
-the file order; `restore_backup` is proved for the in-file order (`order = range`), the order
-independence of disjoint `WriteAt`s is not proved here. Format version, compression, pack size and
+the file order: `restore_backup` holds for EVERY write sequence that covers each blob of the file
+(any order, repetitions allowed; `Restic.Proofs.C01.restore_anyorder`). Format version, compression, pack size and
 concurrency do not occur in the model at all — that they do not matter is established by the
 correspondence run only (18 configurations drawn per case).
 -/
@@ -40,7 +40,7 @@ open Restic.Model.Backup Restic.Proofs.C01
 /-- **C01 on the model.** -/
 theorem restore_backup {ID : Type} [DecidableEq ID] (hash : Bytes → ID) (split : Bytes → List Bytes)
     (hsplit : ∀ c, (split c).flatten = c) (t : List Item) (hwf : WF t) (order : Path → List Nat)
-    (hord : ∀ a ∈ t, a.kind = .file → order a.path = List.range (split a.content).length) :
+    (hord : ∀ a ∈ t, a.kind = .file → ∀ i, i < (split a.content).length → i ∈ order a.path) :
     (restore (backup hash split t).1 (backup hash split t).2 order = some (rsOf (t.filter (·.kind != .socket))) ∧
       specOK t (observe (rsOf (t.filter (·.kind != .socket)))) = true) ∨ Collision hash := by
   by_cases hall : ∀ c ∈ t.flatMap (chunksOf split),
@@ -80,8 +80,8 @@ theorem restore_cfg_indep {ID₁ ID₂ : Type} [DecidableEq ID₁] [DecidableEq 
     (hash₁ : Bytes → ID₁) (hash₂ : Bytes → ID₂) (split₁ split₂ : Bytes → List Bytes)
     (h₁ : ∀ c, (split₁ c).flatten = c) (h₂ : ∀ c, (split₂ c).flatten = c) (t : List Item) (hwf : WF t)
     (order₁ order₂ : Path → List Nat)
-    (ho₁ : ∀ a ∈ t, a.kind = .file → order₁ a.path = List.range (split₁ a.content).length)
-    (ho₂ : ∀ a ∈ t, a.kind = .file → order₂ a.path = List.range (split₂ a.content).length) :
+    (ho₁ : ∀ a ∈ t, a.kind = .file → ∀ i, i < (split₁ a.content).length → i ∈ order₁ a.path)
+    (ho₂ : ∀ a ∈ t, a.kind = .file → ∀ i, i < (split₂ a.content).length → i ∈ order₂ a.path) :
     restore (backup hash₁ split₁ t).1 (backup hash₁ split₁ t).2 order₁ =
       restore (backup hash₂ split₂ t).1 (backup hash₂ split₂ t).2 order₂ ∨ Collision hash₁ ∨ Collision hash₂ := by
   rcases restore_backup hash₁ split₁ h₁ t hwf order₁ ho₁ with ⟨e1, _⟩ | c
